@@ -30,6 +30,7 @@ THEOREMS = ["Eliot.C19.fifo_exactly_once", "Eliot.C19.stop_drains", "Eliot.C19.c
 GENERATED_OBLIGATIONS = ["Generated.writer = Writer.assumed"]
 RULE = ("configurations: 1-3 producers x 0-5 messages, failure masks (none / first / last / every other / all), 1-3 start/stop cycles; "
         "schedules: context-bounded DFS (<= 2 preemptions quick, <= 3 thorough) from the real code's enabled sets plus seeded random schedules; "
+        "some messages are empty / zero objects ({}, [], 0, "", b"", ()) since the writer accepts any object; "
         "plus bursts of 1 500 / 12 000 (thorough: 50 000) messages offered before the writer thread runs (backlog dimension, oracle only); "
         "a case = (configuration, executed schedule); non-trivial = >= 1 message, >= 1 preemption, and at least one put happens after the "
         "first startService statement ran; distinct by canonical hash")
@@ -67,11 +68,12 @@ class Reactor(object):
 class RecQueue(object):
     """Delegates to the writer's real SimpleQueue; records the order of puts."""
 
-    def __init__(self, q, S, stop):
+    def __init__(self, q, S, stop, ident=None):
         self._q, self._S, self._stop, self.puts = q, S, stop, []
+        self._ident = ident or (lambda item: item.get("id") if isinstance(item, dict) else repr(item))
 
     def _record(self, item):
-        self.puts.append(("stop" if item is self._stop else (item.get("id") if isinstance(item, dict) else repr(item)), self._S.current()[0]))
+        self.puts.append(("stop" if item is self._stop else self._ident(item), self._S.current()[0]))
 
     def put(self, item, block=True, timeout=None):
         full = getattr(self._q, "full", None)
@@ -108,6 +110,29 @@ class DiskFull(Exception):
     pass
 
 
+FALSY = {"dict": lambda: {}, "list": lambda: [], "zero": lambda: 0, "str": lambda: "", "bytes": lambda: b"", "tuple": lambda: ()}
+
+
+class Payloads(object):
+    """The objects offered to the writer (it accepts any object): ordinarily `{"id": k}`, for the ids listed in
+    `falsy` an empty / zero object of the given kind.  Identified by object identity (each falsy kind at most once per case)."""
+
+    def __init__(self, falsy):
+        self.falsy = {int(k): v for k, v in (falsy or {}).items()}
+        self.made = []
+
+    def make(self, k):
+        obj = FALSY[self.falsy[k]]() if k in self.falsy else {"id": k}
+        self.made.append((obj, k))
+        return obj
+
+    def ident(self, obj):
+        for o, k in self.made:
+            if o is obj:
+                return k
+        return obj.get("id") if isinstance(obj, dict) and "id" in obj else "foreign:%r" % (obj,)
+
+
 class WouldBlock(Exception):
     """Raised by the recording queue proxy instead of blocking forever."""
 
@@ -127,23 +152,24 @@ def run_real(S, case, chooser):
     saved = (D._destinations, D._any_added)
     D._destinations, D._any_added = [], True
     fails = set(case["fails"])
+    pay = Payloads(case.get("falsy"))
     log = []
 
     def dest(msg):
-        k = msg.get("id") if isinstance(msg, dict) else None
+        k = pay.ident(msg)
         ok = k not in fails
         log.append(["call", k, S.current()[0], ok])
         if not ok:
             raise EXCS[k % len(EXCS)]("destination failed on %r" % (k,))
 
     w = lw.ThreadedWriter(dest, Reactor())
-    q = RecQueue(w._queue, S, lw._STOP)
+    q = RecQueue(w._queue, S, lw._STOP, pay.ident)
     w._queue = q
 
     def producer(ids):
         def body():
             for k in ids:
-                w({"id": k})
+                w(pay.make(k))
         return body
 
     def controller():
@@ -158,7 +184,7 @@ def run_real(S, case, chooser):
         left = []
         while not q.empty():
             it = q.get_nowait()
-            left.append("stop" if it is lw._STOP else it.get("id"))
+            left.append("stop" if it is lw._STOP else pay.ident(it))
     finally:
         try:
             while w in D._destinations:
@@ -336,7 +362,7 @@ def configs(rng, n, thorough):
             f = list(flat)
         else:
             f = [m for m in flat if rng.random() < 0.4]
-        return dict(producers=prods, cycles=cycles, fails=f, mask=mask)
+        return dict(producers=prods, cycles=cycles, fails=f, mask=mask, falsy={})
 
     fixed = [([1], 1, "none"), ([2], 1, "first"), ([0], 1, "none"), ([1, 1], 1, "none"), ([2, 1], 1, "last"), ([1], 2, "none"),
              ([2], 2, "all"), ([1, 1], 2, "alt"), ([3], 1, "alt"), ([1, 1, 1], 1, "first"), ([2, 2], 2, "random"), ([5], 1, "random"),
@@ -346,7 +372,17 @@ def configs(rng, n, thorough):
         np_ = rng.choice([1, 2, 2, 3])
         sizes = [rng.randint(0, 5 if np_ == 1 else (3 if np_ == 2 else 2)) for _ in range(np_)]
         out.append(mk(sizes, rng.choice([1, 1, 2, 3]), rng.choice(["none", "first", "last", "alt", "all", "random"])))
-    return out[:n]
+    out = out[:n]
+    # the writer accepts any object: some of the messages are empty / zero objects (each kind at most once per configuration)
+    kinds = sorted(FALSY)
+    for j, c in enumerate(out):
+        flat = [m for p in c["producers"] for m in p]
+        if not flat or (j % 3 != 1 and rng.random() > 0.25):
+            continue
+        picks = rng.sample(flat, min(len(flat), rng.choice([1, 1, 2])))
+        ks = rng.sample(kinds, len(picks))
+        c["falsy"] = {str(m): k for m, k in zip(picks, ks)}
+    return out
 
 
 def first_start_step(res, sk, nprod):
@@ -381,7 +417,7 @@ def run(ctx):
     bound = ctx.budget(2, 3)
     dfs_limit = ctx.budget(160, 3000) * (2 if broken else 1)
     nrandom = ctx.budget(25, 250) * (2 if broken else 1)
-    deadline = time.time() + ctx.budget(90, 800)
+    deadline = time.time() + ctx.budget(70, 800)
     S = make_scheduler()
     model_in, model_ctx = [], []
     nviol = 0
@@ -391,7 +427,7 @@ def run(ctx):
         if left <= 0 or nviol >= 3:
             break
         per_end = time.time() + max(1.0, left / (len(cfgs) - ci) * 2)
-        case0 = dict(producers=cfg["producers"], cycles=cfg["cycles"], fails=cfg["fails"])
+        case0 = dict(producers=cfg["producers"], cycles=cfg["cycles"], fails=cfg["fails"], falsy=cfg.get("falsy") or {})
         nprod = len(cfg["producers"])
         nmsgs = sum(len(p) for p in cfg["producers"])
 
@@ -412,7 +448,7 @@ def run(ctx):
             fs = first_start_step(res, sk, nprod)
             late_put = fs is not None and any(s.tid < nprod and s.line in call_lines for s in res.trace[fs:])
             ctx.case(case, nontrivial=nmsgs >= 1 and res.preemptions >= 1 and late_put,
-                     tags=["producers:%d" % nprod, "messages:%d" % nmsgs, "cycles:%d" % cfg["cycles"], "mask:" + cfg["mask"], "sched:" + how,
+                     tags=["producers:%d" % nprod, "messages:%d" % nmsgs, "cycles:%d" % cfg["cycles"], "mask:" + cfg["mask"], "sched:" + how, "falsy-messages:%d" % len(cfg.get("falsy") or {}),
                            "preemptions:%d" % min(res.preemptions, 4)])
             ctx.count("steps", n=len(res.trace))
             bad = oracle(case0, res, obs)
@@ -471,7 +507,7 @@ def replay(ctx, obj):
         run(ctx)
         return
     S = make_scheduler()
-    c0 = dict(producers=case["producers"], cycles=case["cycles"], fails=case["fails"])
+    c0 = dict(producers=case["producers"], cycles=case["cycles"], fails=case["fails"], falsy=case.get("falsy") or {})
     res, obs = run_real(S, c0, sched.Explicit(case["schedule"]))
     print("configuration:", json.dumps(c0))
     print("executed     :", res.lines[:600])
